@@ -196,3 +196,47 @@ Fixpoint env_from (i : Z) (l : list bytes) : list (Z * bytes) :=
   end.
 
 Definition hook_env (ms : list bytes) : list (Z * bytes) := env_from 1 (tl ms).
+
+(* ---- the query of the request that triggered the current start, read off the history ------------
+   Handler.Start(onDemand, query) is what path.onDemandStaticSourceStart(req.AccessRequest.Query) calls for the
+   describe / add-reader request that found the source stopped; every instance created until the next Stop (the
+   first one, the one after retryPause, the one after a ReloadMatches restart) must be given that query.
+   trig run q ops: (is the handler between Start and Stop, the query of the Start that opened this period);
+   a Start while running is not a start (the code panics; the path never does it). No model state involved. *)
+Fixpoint trig (run : bool) (q : bytes) (ops : list op) : bool * bytes :=
+  match ops with
+  | [] => (run, q)
+  | OSrcStart q' :: r => trig true (if run then q else q') r
+  | OSrcStop :: r => trig false q r
+  | _ :: r => trig run q r
+  end.
+
+Definition trig_running (ops : list op) : bool := fst (trig false [] ops).
+Definition trig_query (ops : list op) : bytes := snd (trig false [] ops).
+
+(* Handler.Start with the rule that decides what is stored in Handler.query as a parameter
+   (store old new); the code stores the query of the request: s.query = query. *)
+Definition src_step_store (store : bytes -> bytes -> bytes) (s : src) (o : op) : src * list bytes :=
+  match o with
+  | OSrcStart q =>
+      if s_running s then (s, [])
+      else let q' := store (s_query s) q in
+           let v := src_resolve s (s_ms s) q' in
+           ({| s_tmpl := s_tmpl s; s_ms := s_ms s; s_running := true; s_alive := true; s_query := q'; s_cur := v |}, [v])
+  | _ => src_step s o
+  end.
+
+Definition store_code (old new : bytes) : bytes := new.
+(* two rules for the refutations in Props: an empty query does not overwrite; the first query is kept *)
+Definition store_nonempty (old new : bytes) : bytes := match new with [] => old | _ => new end.
+Definition store_first (old new : bytes) : bytes := match old with [] => new | _ => old end.
+
+(* the ResolvedSource of every instance created, step by step *)
+Fixpoint src_events_with (stp : src -> op -> src * list bytes) (s : src) (ops : list op) : list (list bytes) :=
+  match ops with
+  | [] => []
+  | o :: r => let '(s', e) := stp s o in e :: src_events_with stp s' r
+  end.
+
+Definition src_init (t : bytes) (ms : list bytes) : src :=
+  {| s_tmpl := t; s_ms := ms; s_running := false; s_alive := false; s_query := []; s_cur := [] |}.
